@@ -126,3 +126,18 @@ Theorem C19_code_stack_push_guard : forall f stk, len stk < 2^64 -> len stk <= g
   (snd (fst (g_cbor_stack_push (Z.of_N (len stk)) true)) = false <-> push gen_CBOR_MAX_STACK_SIZE f stk = ok_stack (f :: stk)).
 Proof. exact bridge_stack_push_guard. Qed.
 Print Assumptions C19_code_stack_push.
+
+(* the push-or-append decision of the start callbacks as the C source of this run has it: an empty
+   definite array is appended at once, any other is pushed expecting its declared number of items
+   (refused at the nesting limit or by the constructor: creation_failed) *)
+From CB Require Import HPlansLoad HPlansLoad_proofs Bridge_effects_load.
+From CBGen Require Import Gen_effects_load.
+Theorem C19_code_array_start_followed : forall L cap n stk,
+  n < 2 ^ 64 -> len stk < 2 ^ 64 ->
+  let p := Gcbor_builder_array_start_callback 0 (Z.of_N (len stk)) (Z.of_N n) (alloc_ok cap 64 8 n) (negb (len stk =? L)) in
+  callback L cap (TArray n) stk =
+    if plan_cascades p then PBuild.append (IArray false []) stk
+    else if (HPlansLoad_proofs.fieldZ "creation_failed" p =? 1)%Z then fail_mem stk
+    else ok_stack (FArr false [] n (push_subitems p) :: stk).
+Proof. exact code_array_start_followed. Qed.
+Print Assumptions C19_code_array_start_followed.
